@@ -338,4 +338,58 @@ theorem task_init_eq (vars : List VarDecl) (hv : ∀ v ∈ vars, v.valid = true)
   rw [h vars hv]
   rfl
 
+/-! ## `correct` of the four multi-variable classes: the children's `correct`, coordinate by coordinate -/
+
+/-- `[v.correct(value[idx]) for idx, v in enumerate(children)]` from index `k` on -/
+theorem enum_correct_from (value : List Raw) (cs : List Var) (k : Nat) (h : k + cs.length ≤ value.length) :
+    ((List.range' k cs.length).zip cs).mapM (fun (p : Nat × Var) => (do return (← Var.correct p.2 (← Py.getNat value p.1)) : Except Err Coord))
+      = TaskDecl.correctList (value.drop k) cs := by
+  induction cs generalizing k with
+  | nil => simp [TaskDecl.correctList]; rfl
+  | cons v vs ih =>
+    have hk : k < value.length := by simp at h; omega
+    have hd : value.drop k = value[k] :: value.drop (k + 1) := List.drop_eq_getElem_cons hk
+    have hg : Py.getNat value k = .ok value[k] := by rw [getNat_eq, List.getElem?_eq_getElem hk]
+    simp only [List.length_cons, List.range'_succ, List.zip_cons_cons, List.mapM_cons, hg, except_ok_bind]
+    rw [hd]
+    simp only [TaskDecl.correctList]
+    cases Var.correct v value[k] with
+    | error e => rfl
+    | ok y =>
+      simp only [except_ok_bind]
+      rw [ih (k + 1) (by simp at h; omega)]
+      cases TaskDecl.correctList (value.drop (k + 1)) vs <;> rfl
+
+/-- a value list at least as long as the children: the multi-variable's `correct` is the children's, coordinate by coordinate; coordinates beyond the last
+child are ignored (the list comprehension runs over the children) -/
+theorem multi_correct_eq (value : List Raw) (cs : List Var) (h : cs.length ≤ value.length) :
+    (Py.enumerate cs).mapM (fun (p : Nat × Var) => (do return (← Var.correct p.2 (← Py.getNat value p.1)) : Except Err Coord)) = TaskDecl.correctList value cs := by
+  have := enum_correct_from value cs 0 (by omega)
+  simpa [Py.enumerate, List.range_eq_range'] using this
+
+theorem contmulti_correct_eq (lbs ubs : List Num) (value : List Raw) (h : (VarDecl.contMulti lbs ubs).children.length ≤ value.length) :
+    Src.contmulti_correct lbs ubs value = TaskDecl.correctList value (VarDecl.contMulti lbs ubs).children := by
+  unfold Src.contmulti_correct
+  rw [contmulti_children_eq]
+  exact multi_correct_eq value _ h
+
+theorem multiobj_correct_eq (lbs ubs : List Num) (value : List Raw) (h : (VarDecl.multiObj lbs ubs).children.length ≤ value.length) :
+    Src.multiobj_correct lbs ubs value = TaskDecl.correctList value (VarDecl.multiObj lbs ubs).children := by
+  unfold Src.multiobj_correct
+  rw [multiobj_children_eq]
+  exact multi_correct_eq value _ h
+
+theorem binary_correct_eq (n : Int) (value : List Raw) (h : (VarDecl.binary n).children.length ≤ value.length) :
+    Src.binary_correct n value = TaskDecl.correctList value (VarDecl.binary n).children := by
+  unfold Src.binary_correct
+  rw [binary_children_eq]
+  exact multi_correct_eq value _ h
+
+theorem discmulti_correct_eq (ns : List Nat) (value : List Raw) (h : (VarDecl.discMulti ns).children.length ≤ value.length) :
+    Src.discmulti_correct (ns.map List.range) value = TaskDecl.correctList value (VarDecl.discMulti ns).children := by
+  unfold Src.discmulti_correct
+  rw [discmulti_children_eq]
+  simp only [except_ok_bind]
+  exact multi_correct_eq value _ h
+
 end R14
